@@ -265,6 +265,18 @@ func (i StaticInspector) DeepEqualWithOptions(l, r any, _ *DEQOptions) bool {
 	if isNilPtr(l) || isNilPtr(r) {
 		return false
 	}
+	switch r.(type) {
+	case float32, *float32, float64, *float64:
+		switch l.(type) {
+		case float32, *float32, float64, *float64:
+		default:
+			// An integer against a float compares like the float against the integer (as floats),
+			// not by truncating the float.
+			if _, ok := i.indFloat(l); ok {
+				l, r = r, l
+			}
+		}
+	}
 	switch l.(type) {
 	case bool:
 		if rx, ok := i.indBool(r); ok {
